@@ -25,6 +25,7 @@ def handle (case : Json) : Json :=
   | "src_eval" => srcEval case
   | "match_oracle" => matchOracle case
   | "bit_eval" => bitEval case
+  | "bit_check" => bitCheck case
   | op => Json.mkObj [("error", s!"unknown op {op}")]
 
 partial def loop (h : IO.FS.Stream) (out : IO.FS.Stream) : IO Unit := do
